@@ -1,25 +1,82 @@
-"""C10 — connect and disconnect always terminate, whatever the link does."""
+"""C10 — connect and disconnect always terminate, whatever the link does.
+
+Two kinds of cases:
+ * driver lines (`hs connect …`, `hs sess …`): run on the real handlers under the virtual-time runtime AND on the Lean model
+   (`Handshake.lean`), outputs compared (K); the same lines are judged by the termination oracle (`judge_session`, `judge`);
+ * scenarios (`extra_checks`, dicts): faults the model does not predict exactly (sustained noise, residues at every request,
+   chunking + noise, slow links, streaming devices), judged by the termination oracle only.
+"""
+import random
 import struct
 from common import Prop, exc_name
 import vsim
 import refdev
 import sessionlib as sl
 
-RESP = {"o": "ack", "s": "lost", "w": "wrong-frame", "h": "short"}
+# script letters: what the device does with ONE request the client waits an answer for
+#   o answer correctly / ACK        s nothing                       w a well-formed frame of another kind
+#   h right kind, payload too short g the reference device's garbage blob (contains the decodable header 55 01 ff 00:
+#   n an ACK frame with a non-zero code (NACK)                        a 65281-byte frame is announced, everything later is its body)
+#   x noise without a start byte    u (scenarios only) channel-info whose name is not UTF-8
+RESP = {"o": "ack", "s": "lost", "w": "wrong-frame", "h": "short", "g": "garbage", "n": "nack", "x": "noise", "u": "badname"}
+NOISE_X = bytes([0x13, 0x37, 0x00, 0xFF, 0x54])
+
+LIB_THREADS = ("recv", "stream")
 
 
 class ScriptPolicy:
-    """per info request (cmninfo/chinfo, in order of arrival) the scripted response; other requests are acked"""
+    """per request the client WAITS on (cmninfo/chinfo always; start/enable/div only while `await_acks`, i.e. while the
+    client knows the device and the device supports ACK) the next script letter; everything else is acknowledged.
+    `inject[k] = (blob, where)`: when the k-th request (all kinds, from 0) arrives, `blob` is put on the wire
+    before ('pre': in front of everything pending, 'mid': just before the answer) or after ('post') the answer."""
 
-    def __init__(self, script, dflt):
+    def __init__(self, script, dflt, inject=None):
         self.script = list(script)
         self.dflt = dflt
+        self.await_acks = False
+        self.inject = dict(inject or {})
+        self.nreq = 0
+        self.post = None
+        self.used = []          # letters consumed so far
+
+    def letter(self):
+        c = self.script.pop(0) if self.script else self.dflt
+        self.used.append(c)
+        return c
 
     def __call__(self, dev, kind, req):
-        if kind in ("cmninfo", "chinfo"):
-            c = self.script.pop(0) if self.script else self.dflt
-            return RESP[c]
-        return "ack"
+        k = self.nreq
+        self.nreq += 1
+        inj = self.inject.get(k)
+        if inj and inj[1] == "pre":
+            dev.rx[0:0] = inj[0]
+        elif inj and inj[1] == "mid":
+            dev.rx += inj[0]
+        act = self.action(dev, kind, req)
+        if inj and inj[1] == "post":
+            # the device object appends its answer after we return: remember the tail and let the link add it
+            self.post = inj[0]
+        return act
+
+    def action(self, dev, kind, req):
+        info = kind in ("cmninfo", "chinfo")
+        if not info and not (self.await_acks and dev.ack_supported()):
+            return "ack"
+        c = self.letter()
+        if c == "n":
+            if info:
+                dev._send(refdev.ACK, struct.pack("<i", 5))
+                return "lost"
+            return ("nack", 5)
+        if c == "x":
+            dev.rx += NOISE_X
+            return "lost"
+        if c == "u":
+            if kind == "chinfo":
+                dev._send(refdev.CHINFO, bytes([0, 10, 1, 0, 0]) + b"temp\xb0C")
+                return "lost"
+            return "ack"
+        return RESP[c]
 
 
 def decode_writes(writes):
@@ -36,6 +93,10 @@ def decode_writes(writes):
             out.append("C")
         elif fid == 3:
             out.append(f"I{w[4]}")
+        elif fid == 6:
+            out.append("E")
+        elif fid == 7:
+            out.append("D")
         else:
             out.append(f"?{fid}")
     return out
@@ -44,6 +105,324 @@ def decode_writes(writes):
 def bound_tenths(chmax):
     return 8 + 6 * (10 + 8 + chmax * 6 * 10)
 
+
+# ---- one session on the real handlers ---------------------------------------------------------------------------------
+
+def has_header(blob):
+    """can the periodic repetition of `blob` (or the blob itself) contain a decodable serial header?
+    (start byte, any length, frame id 0..8 three bytes later)"""
+    s = blob * 3 if len(blob) < 8 else blob + blob[:8]
+    return any(s[i] == 0x55 and s[i + 3] <= 8 for i in range(len(s) - 3))
+
+
+def session_defaults(p):
+    q = {"level": "l", "chmax": 2, "flags": 3, "rxp": 0, "script": "", "dflt": "o", "ops": "cd", "chunk": 0, "poll": 0.01,
+         "noise": [], "inject": {}, "read_inject": {}, "stream_every": 0, "en": False, "seed": 0}
+    q.update(p)
+    return q
+
+
+def run_session(p, time_limit=None, real_limit=20.0):
+    """run the op string on one handler object; returns dict(ops=[…], sent, errors, exc, …).
+    ops: c connect, s stream_start, t stream_stop, d disconnect, p pause 0.3 s (virtual)"""
+    p = session_defaults(p)
+    res = {"ops": [], "params": p}
+    rng = random.Random(p["seed"])
+
+    def lib_tasks(sim):
+        return [t.name for t in sim.live_tasks() if t.name in LIB_THREADS]
+
+    def scenario(sim):
+        from nxslib.comm import CommHandler
+        from nxslib.nxscope import NxscopeHandler
+        from nxslib.proto.parse import Parser
+        chmax = p["chmax"]
+        inject = {int(k): (bytes.fromhex(v[0]), v[1]) for k, v in p["inject"].items()}
+        pol = ScriptPolicy(p["script"], p["dflt"], inject)
+        dev = refdev.RefDevice(sl.mk_chans([p["en"]] * chmax, [0] * chmax), flags=p["flags"], rxpadding=p["rxp"], policy=pol)
+        chunk = p["chunk"]
+        link = refdev.make_link(sim, dev, poll=p["poll"], chunker=(lambda n: chunk) if chunk else None,
+                                stream_every=p["stream_every"] or None)
+        # bytes injected at the n-th read of the link / after an answer
+        rinj = {int(k): (bytes.fromhex(v[0]), v[1]) for k, v in p["read_inject"].items()}
+        orig_read = link._read
+        state = {"n": 0}
+
+        def rd():
+            if pol.post is not None:
+                dev.rx += pol.post
+                pol.post = None
+            b = rinj.get(state["n"])
+            state["n"] += 1
+            if b:
+                if b[1] == "pre":
+                    dev.rx[0:0] = b[0]
+                else:
+                    dev.rx += b[0]
+            return orig_read()
+        if rinj or inject:
+            link._read = rd
+            link._fread = rd
+        stop_noise = {"v": False, "events": 0}
+
+        def spawn_noise(nz):
+            blob = None if nz["blob"] == "random" else bytes.fromhex(nz["blob"])
+            period = nz["period"]
+            count = nz.get("n", 10 ** 9)
+
+            def noise():
+                k = 0
+                while k < count and not stop_noise["v"]:
+                    sim.block(lambda: False, period, "noise-source")
+                    dev.rx += blob if blob is not None else bytes(rng.choice([0x55, 0x55, 0, 6, 7, rng.randrange(256)])
+                                                                  for _ in range(rng.randrange(1, 9)))
+                    k += 1
+                    stop_noise["events"] += 1
+            sim.spawn(noise, "hx-noise")
+        for nz in p["noise"]:
+            if nz.get("start", "0") == "0":
+                spawn_noise(nz)
+        done = {"v": False}
+
+        def watchdog():
+            # vsim raises TimeLimit once, in whichever task happens to advance the clock past the limit (often the receive
+            # thread) and then disarms it; re-arm it until the MAIN task gets the verdict, so that a call that never returns
+            # ends the scenario in milliseconds instead of running into the real-time limit.  No event before the limit.
+            try:
+                sim.block(lambda: done["v"], budget + 0.001, "watchdog")
+            except vsim.TimeLimit:
+                pass
+            while not done["v"]:
+                if sim.time_limit == float("inf"):
+                    sim.time_limit = sim.now
+                try:
+                    sim.block(lambda: done["v"], 0.5, "watchdog")
+                except vsim.TimeLimit:
+                    pass
+        sim.spawn(watchdog, "hx-watchdog")
+        h = NxscopeHandler(link, Parser()) if p["level"] == "h" else CommHandler(link, Parser())
+        res["handler"] = h
+        nconn = 0
+        for op in p["ops"]:
+            pol.await_acks = op != "c" and h.dev is not None
+            rec = {"op": op, "t0": sim.now, "was_connected": h.dev is not None}
+            used0 = len(pol.used)
+            ev0 = stop_noise["events"]
+            try:
+                if op == "c":
+                    h.connect()
+                    d = h.dev.data
+                    rec["res"] = f"connected:{d.chmax}:{d.flags}:{d.rxpadding}"
+                    nconn += 1
+                    if nconn == 1:
+                        for nz in p["noise"]:
+                            if nz.get("start") == "c":
+                                spawn_noise(nz)
+                elif op == "d":
+                    h.disconnect()
+                    rec["res"] = "ok"
+                elif op == "s":
+                    r = h.stream_start()
+                    rec["res"] = "ok" if p["level"] == "h" else ("ack" if r.state else "noack")
+                elif op == "t":
+                    r = h.stream_stop()
+                    rec["res"] = "ok" if p["level"] == "h" else ("ack" if r.state else "noack")
+                elif op == "p":
+                    sim.block(lambda: False, 0.3, "pause")
+                    rec["res"] = "ok"
+                else:
+                    raise ValueError(op)
+            except (vsim.RealTimeLimit, vsim.TimeLimit, vsim.Spin, vsim.Deadlock):
+                rec["res"] = "never-returned"
+                rec["t1"] = sim.now
+                rec["thr"] = lib_tasks(sim)
+                res["ops"].append(rec)
+                raise            # the simulation's own verdict (non-termination), not an outcome of the call
+            except Exception as e:
+                rec["res"] = "raised:" + exc_name(e)
+            if sim.killed:
+                # the real-time watchdog fired while this call was running (a library thread loops without ever reaching
+                # a switch point); whatever the call did with the watchdog's exception is not an outcome of the call
+                rec["res"] = "never-returned"
+                rec["t1"] = sim.now
+                rec["thr"] = lib_tasks(sim)
+                res["ops"].append(rec)
+                raise vsim.RealTimeLimit(f"real-time budget exceeded during this call at virtual t={sim.now:.2f}; tasks: {sim.tasks!r}")
+            rec["t1"] = sim.now
+            rec["thr"] = lib_tasks(sim)
+            rec["intf"] = int(link.started - link.stopped > 0)
+            rec["letters"] = "".join(pol.used[used0:])
+            rec["noise_events"] = stop_noise["events"] - ev0
+            res["ops"].append(rec)
+        stop_noise["v"] = True
+        done["v"] = True
+        res["sent"] = decode_writes(link.writes)
+        res["reads"] = link.reads
+
+    def neutralize():
+        # the handlers' destructors call disconnect(): they must not run inside a LATER simulation
+        h = res.pop("handler", None)
+        for o in (h, getattr(h, "_comm", None)):
+            if o is not None:
+                o.disconnect = lambda: None
+
+    budget = time_limit if time_limit is not None else session_budget(p) + 30.0
+    try:
+        r, sim = vsim.run_sim(scenario, time_limit=budget, real_limit=real_limit, spin_limit=50000)
+    finally:
+        neutralize()
+    res["errors"] = [(n, repr(e)) for n, e, _ in sim.errors]
+    res["t_end"] = sim.now
+    if isinstance(r, BaseException):
+        res["exc"] = f"{type(r).__name__}({r})"
+        if len(res["ops"]) < len(p["ops"]) and (not res["ops"] or res["ops"][-1]["res"] != "never-returned"):
+            res["ops"].append({"op": p["ops"][len(res["ops"])], "res": "never-returned", "t0": None, "t1": sim.now,
+                               "thr": [t.name for t in sim.live_tasks() if t.name in LIB_THREADS]})
+    return res
+
+
+def stop_latency(p):
+    """how long the receive thread may take to see a stop request (virtual seconds).  One invocation of its body makes at
+    most 2·hdr_len − 1 = 7 reads plus, if a header was decoded, one read per missing byte of the declared frame (≤ 65531);
+    every read returns within the link's idle timeout `poll`, and the invocation ends at the first EMPTY read.  So without
+    a sustained source faster than `poll` the body is back after two read timeouts; with one (period P ≤ poll, blobs of n
+    bytes) after at most 8 reads if nothing on the wire can look like a header, else after (8 + 65531/n) reads of ≤ P each
+    (a noise `55` in front of an answer `55 09 00 02 …` IS the header of a 2389-byte frame)."""
+    p = session_defaults(p)
+    poll = p["poll"]
+    fast = [nz for nz in p["noise"] if nz["period"] <= poll]
+    if not fast:
+        return 2 * poll + 0.05
+    period = max(nz["period"] for nz in fast)
+    blobs = [None if nz["blob"] == "random" else bytes.fromhex(nz["blob"]) for nz in fast]
+    silent_dev = all(c in "sx" for c in p["script"] + p["dflt"]) and not p["inject"] and not p["read_inject"]
+    header_free = all(b is not None and not has_header(b) for b in blobs)
+    if silent_dev and header_free:
+        return 8 * period + 2 * poll + 0.05
+    n = min(1 if b is None else len(b) for b in blobs)
+    return (8 + 65531 // n + 1) * period + 2 * poll + 0.05
+
+
+def op_bound(p, op):
+    p = session_defaults(p)
+    high = p["level"] == "h"
+    lat = stop_latency(p)
+    if op == "c":
+        return bound_tenths(p["chmax"]) / 10 + lat
+    if op == "d":
+        return (4.8 if high else 0.8) + lat
+    if op == "s":
+        return 3.0 if high else 1.0
+    if op == "t":
+        return 2.0 if high else 1.0
+    return 0.3
+
+
+def session_budget(p):
+    return sum(op_bound(p, op) for op in session_defaults(p)["ops"])
+
+
+def describe(p):
+    p = session_defaults(p)
+    d = {k: v for k, v in p.items() if v != session_defaults({}).get(k) or k in ("level", "chmax", "ops", "script", "dflt")}
+    return " ".join(f"{k}={v}" for k, v in d.items())
+
+
+def judge_session(r, p=None):
+    """the property itself: every connect / disconnect (and stream start / stop) call returns or raises within its bound,
+    no library thread dies, a connect that raised and a disconnect that returned leave no library thread and no started
+    interface behind, never two receive threads.  (struct.error out of an ACK wait — an ACK frame of the wrong size —
+    is outside the property's fault classes: such sessions are not judged for what they leave behind.)"""
+    p = session_defaults(p or r["params"])
+    what = describe(p)
+    ops = r["ops"]
+    sim_verdict = [e for e in r["errors"] if any(k in e[1] for k in ("TimeLimit", "Spin", "Deadlock"))]
+    if "exc" in r or any(o["res"] == "never-returned" for o in ops) or sim_verdict:
+        last = ops[-1] if ops else {"op": "?", "t1": 0}
+        if sim_verdict and "exc" not in r:
+            # the budget ran out inside a library / noise task while a call was waiting: name the call that overran
+            over = [o for o in ops if o["t1"] - o["t0"] > op_bound(p, o["op"]) + 0.051]
+            last = over[0] if over else last
+            r = dict(r, exc=sim_verdict[0][1], ops=ops[:ops.index(last) + 1])
+            ops = r["ops"]
+        names = {"c": "connect", "d": "disconnect", "s": "stream_start", "t": "stream_stop", "p": "pause"}
+        return {"key": "does-not-terminate",
+                "what": f"{names.get(last['op'], last['op'])}() (op {len(ops)} of '{p['ops']}') did not return or raise: "
+                        f"{r.get('exc', '')[:300]} ({what})",
+                "expected": f"return or raise within {op_bound(p, last['op']):.2f} s (virtual)",
+                "observed": f"still running at t={r.get('t_end', 0):.2f} s, library threads alive: {last.get('thr')}",
+                "scenario": what}
+    if r["errors"]:
+        if r["errors"][0][0] not in LIB_THREADS:
+            raise RuntimeError(f"harness task failed: {r['errors'][0]}")
+        return {"key": "thread-died", "what": f"library thread died ({what}): {r['errors'][0]}", "expected": "-",
+                "observed": repr(r["errors"][0]), "scenario": what}
+    ack_struct = any(o["op"] != "c" and o["res"] == "raised:struct" for o in ops)
+    # nothing but the device's scripted answers on the wire, apart from noise events (counted per call)
+    clean_link = not p["inject"] and not p["read_inject"] and not p["stream_every"]
+    for i, o in enumerate(ops):
+        dt = o["t1"] - o["t0"]
+        b = op_bound(p, o["op"])
+        where = f"op {i + 1} '{o['op']}' of '{p['ops']}' ({what})"
+        if dt > b + 0.051:
+            key = {"c": "connect-too-long", "d": "disconnect-too-long"}.get(o["op"], "call-too-long")
+            return {"key": key, "what": f"{where} took {dt:.2f} s", "expected": f"<= {b:.2f} s", "observed": dt, "scenario": what}
+        if o["thr"].count("recv") > 1:
+            return {"key": "two-recv-threads", "what": f"two receive threads alive after {where}", "expected": "at most one",
+                    "observed": o["thr"], "scenario": what}
+        if ack_struct:
+            continue
+        if o["op"] == "c" and o["res"].startswith("raised") and (o["thr"] or o["intf"]):
+            # connect on an already connected handler cannot raise; a raise means this call started things
+            return {"key": "thread-left-after-failed-connect",
+                    "what": f"connect raised ({o['res']}) but left {o['thr'] or 'the interface'} running: {where}",
+                    "expected": "no library thread, interface stopped", "observed": {"threads": o["thr"], "intf": o["intf"]},
+                    "scenario": what}
+        if o["op"] == "c" and o["res"].startswith("raised") and clean_link and not o.get("noise_events") and \
+                o.get("letters") and set(o["letters"]) == {"o"}:
+            return {"key": "connect-fails-on-healthy-link",
+                    "what": f"connect raised ({o['res']}) although the device answered every request of this call correctly and "
+                            f"nothing else was on the wire during it: {where} (what an earlier session left behind must not "
+                            f"make a later connect fail: F21)",
+                    "expected": "connected", "observed": o["res"], "scenario": what}
+        if o["op"] == "d" and o["res"] == "ok" and (o["thr"] or o["intf"]):
+            return {"key": "thread-left", "what": f"library thread / interface left running after disconnect returned: {where}: "
+                                                  f"{o['thr']} intf={o['intf']}",
+                    "expected": "none", "observed": {"threads": o["thr"], "intf": o["intf"]}, "scenario": what}
+        if o["op"] == "d" and o["res"].startswith("raised"):
+            return {"key": "disconnect-raised", "what": f"disconnect raised {o['res']}: {where}; left {o['thr']} intf={o['intf']}",
+                    "expected": "returns", "observed": o["res"], "scenario": what}
+    return None
+
+
+def fmt_session(r):
+    """canonical output line of a session (format of the Lean driver op `hs sess`)"""
+    if "exc" in r or r["errors"]:
+        return "sim-failure " + r.get("exc", "") + repr(r["errors"])
+    parts = [f"{o['op']}={o['res']}@{round(o['t1'] * 10)}/{len(o['thr'])}/{o['intf']}" for o in r["ops"]]
+    return " ".join(parts) + " sent=" + " ".join(r["sent"])
+
+
+def parse_sess(line):
+    """hs sess <l|h> <chmax> <flags> <rxp> <script|-> <dflt> <ops> <chunk> [noise=<period ms>:<hex>]"""
+    t = line.split(" ")
+    p = {"level": t[2], "chmax": int(t[3]), "flags": int(t[4]), "rxp": int(t[5]), "script": "" if t[6] == "-" else t[6],
+         "dflt": t[7], "ops": t[8], "chunk": int(t[9])}
+    for extra in t[10:]:
+        if extra.startswith("noise="):
+            ms, blob = extra[6:].split(":")
+            p["noise"] = [{"period": int(ms) / 1000.0, "blob": blob}]
+    return p
+
+
+def modelled_noise(p):
+    """the model predicts a session under sustained noise only when the device never answers (nothing to corrupt) and the
+    noise cannot contain a decodable header"""
+    return all(c in "sx" for c in p["script"] + p["dflt"]) and \
+        not any(has_header(bytes.fromhex(nz["blob"])) for nz in p["noise"])
+
+
+# ---- legacy single-connect runner (lines `hs connect …`) ------------------------------------------------------------------
 
 def run_connect(chmax, flags, rxp, script, dflt, high_level=False, link_hook=None, time_limit=20000.0):
     """returns dict(outcome, t, thr, intf, sent, t2, thr2, intf2, errors, exc)"""
@@ -82,47 +461,248 @@ def run_connect(chmax, flags, rxp, script, dflt, high_level=False, link_hook=Non
         res["intf2"] = int(link.started - link.stopped > 0)
         res["live"] = [t.name for t in sim.live_tasks()]
 
-    r, sim = vsim.run_sim(scenario, time_limit=time_limit, real_limit=20.0)
+    r, sim = vsim.run_sim(scenario, time_limit=time_limit, real_limit=20.0, spin_limit=50000)
     res["errors"] = [(n, repr(e)) for n, e, _ in sim.errors]
     if isinstance(r, BaseException):
-        res["exc"] = f"{type(r).__name__}: {r}"
+        res["exc"] = f"{type(r).__name__}({r})"
     return res
+
+
+# ---- scenario families (termination oracle only) ----------------------------------------------------------------------------
+
+NOISE_BLOBS = ["55", "5506", "55ffff07", "00", "random"]
+
+
+def noise_scenarios(rng, T):
+    """sustained, rate-limited noise sources; silent / answering / half-answering device; both levels; connect and
+    disconnect under noise; noise that starts after a successful connect"""
+    out = []
+    # the F20 regression and its neighbours: every blob × a period below, at and above the read timeout
+    # (quick: the two blobs that make the body collect 65535 bytes only at one period each)
+    for blob in NOISE_BLOBS:
+        heavy = blob == "random" or has_header(bytes.fromhex(blob))      # the body collects a long "frame"
+        for period in (0.005, 0.01, 0.05):
+            if not T and heavy and period != {"random": 0.05, "5506": 0.005}.get(blob, 0.01):
+                continue
+            out.append({"kind": "noise-silent", "level": "lh"[len(out) & 1], "chmax": 2, "dflt": "s", "ops": "cd",
+                        "noise": [{"period": period, "blob": blob}]})
+    periods = [0.001, 0.002, 0.005, 0.01, 0.02, 0.1, 0.3, 1.0]
+    nheavy = 0
+    n = 60 if T else 10
+    for i in range(n):
+        blob = NOISE_BLOBS[i % len(NOISE_BLOBS)]
+        period = periods[(i // len(NOISE_BLOBS) + i) % len(periods)] if i < 40 else rng.choice(periods)
+        devkind = i % 3
+        chmax = rng.choice([0, 1, 2, 3])
+        sc = {"kind": "noise", "level": "lh"[(i // 3) & 1], "chmax": chmax, "seed": rng.randrange(1 << 30),
+              "noise": [{"period": period, "blob": blob, "start": "c" if i % 4 == 3 else "0"}]}
+        if devkind == 0:
+            sc.update(script="", dflt="s", ops="cd")
+        elif devkind == 1:
+            sc.update(script="", dflt="o", ops=rng.choice(["cd", "csd", "cspd", "cdcd"]))
+        else:
+            k = rng.randrange(0, 2 + chmax + 4)
+            sc.update(script="o" * k, dflt=rng.choice("sn"), ops=rng.choice(["cd", "csd", "ccd"]))
+        if period <= 0.002 and sc["dflt"] == "s" and sc["ops"] != "cd":
+            sc["ops"] = "cd"
+        if not T and (blob == "random" or has_header(bytes.fromhex(blob))) and period <= 0.01:
+            nheavy += 1
+            if nheavy > 2:
+                sc["noise"][0]["period"] = 0.02 + period      # above the read timeout: no 65535-byte collection
+        out.append(sc)
+    return out
+
+
+def postconnect_scenarios(rng, T):
+    """faults after a successful connect: the device goes silent / NACKs / answers wrong-kind / garbage / noise from
+    request k on, with and without a running (and a really streaming) stream, then disconnect; both levels"""
+    out = []
+    for level in "lh":
+        for chmax in ((0, 1, 3) if T else (0, 2)):
+            nreq = 1 + chmax
+            for f in "sngwx":
+                for ops in (("cd", "csd", "cstd", "cspd", "csdcd") if level == "h" else ("cd", "csd", "cstd", "ctd")):
+                    for k in ((0, 1, 2, 3) if T else (0, 2)):
+                        for flags in ((3, 2, 0) if T and f in "sn" else (3,)):
+                            out.append({"kind": "post-connect", "level": level, "chmax": chmax, "flags": flags,
+                                        "script": "o" * (nreq + k), "dflt": f, "ops": ops})
+    # a device that really streams (and keeps streaming when it goes silent)
+    for level in "lh":
+        for f in "sn":
+            out.append({"kind": "post-connect-streaming", "level": level, "chmax": 2, "en": True, "stream_every": 3,
+                        "script": "o" * (3 + (3 if level == "h" else 1)), "dflt": f, "ops": "cspd"})
+    return out
+
+
+def fault_point_scenarios(rng, T):
+    """residues / noise blobs at EVERY request index (before, in front of and behind the answer), chunked answers,
+    garbage, a second connect on the same handler after a failed one (stale `_prev_read`), channel names that are not UTF-8"""
+    out = []
+    residues = ["55", "5506", "550600", "0055", "000055", "55090002", "1337550155"]
+    for chmax in ((1, 3) if T else (2,)):
+        nreq = 2 + chmax                      # stop, cmninfo, chinfo × chmax
+        for k in range(nreq + (3 if T else 1)):
+            for j, blob in enumerate(residues):
+                if not T and (j + k) % 3:
+                    continue
+                for where in ("pre", "mid", "post"):
+                    if not T and (j + k + len(where)) % 2:
+                        continue
+                    out.append({"kind": "residue-at-request", "level": "lh"[(k + j) & 1], "chmax": chmax,
+                                "dflt": "os"[(j + k) % 2] if where != "post" else "o", "ops": "cdcd",
+                                "inject": {str(k): [blob, where]}, "chunk": (0, 1, 3)[(j + k) % 3]})
+    # F21: a cut-off frame / a noise header arrives once while the first session is up; the session ends; the next
+    # connect of the same handler must succeed on the healthy device
+    cut = bytes([0x55, 0xEE, 0x03, 0x01]) + bytes(range(1, 97))          # first 100 bytes of a 1006-byte stream frame
+    for level in "lh":
+        for blob in (cut.hex(), "55ffff07", "55", "550900"):
+            for ops in (("cpdcd", "cspdcd") if T or blob != "55" else ("cpdcd",)):
+                out.append({"kind": "stale-buffer", "level": level, "chmax": 2, "dflt": "o", "ops": ops,
+                            "noise": [{"period": 0.05, "blob": blob, "start": "c", "n": 1}]})
+    # undecodable answers to an info request, every time it is asked (struct.error / UnicodeDecodeError out of connect)
+    for level in "lh":
+        for chmax in ((1, 3) if T else (2,)):
+            for k in range(0, 1 + chmax):
+                for f in "hu":
+                    out.append({"kind": "undecodable-info", "level": level, "chmax": chmax, "script": "o" * k, "dflt": f,
+                                "ops": "cdc"})
+    for it in range(60 if T else 12):
+        chmax = rng.randrange(0, 4)
+        script = "".join(rng.choice("oooooswhgnxu") for _ in range(rng.randrange(0, 12)))
+        out.append({"kind": "reconnect", "level": rng.choice("lh"), "chmax": chmax, "flags": rng.choice([3, 3, 2, 1, 0, 7, 255]),
+                    "rxp": rng.choice([0, 0, 4]), "script": script, "dflt": rng.choice("ooos"),
+                    "ops": rng.choice(["cc", "ccd", "cdc", "cccd", "cdcd", "ccsd"]), "chunk": rng.choice([0, 0, 1, 2, 5])})
+    # noise blobs at a read index (the old family, now at any point of the first seconds), both levels
+    for it in range(90 if T else 16):
+        poison = it % 3 == 0
+        blob = (bytes([0x55, rng.randrange(7, 256), rng.randrange(0, 3), rng.randrange(0, 9)]) if poison
+                else bytes(rng.choice([0x55, 0, 6, 7, rng.randrange(256)]) for _ in range(rng.randrange(1, 40))))
+        out.append({"kind": "poison" if poison else "noise-at-read", "level": "lh"[it & 1], "chmax": rng.randrange(0, 5),
+                    "dflt": rng.choice("oos"), "ops": "cd",
+                    "read_inject": {str(rng.choice([0, 1, 2, 5, rng.randrange(0, 200), rng.randrange(0, 700)])):
+                                    [blob.hex(), rng.choice(["pre", "post"])]}})
+    return out
+
+
+def boundary_scenarios(rng, T):
+    """zero channels / 255 channels / all flag bytes at both levels; a link whose idle read blocks longer than any join
+    timeout would wait (9 virtual seconds, allowed by the ICommInterface contract)"""
+    out = []
+    for level in "lh":
+        for chmax in (0, 255):
+            for dflt, script in (("o", ""), ("s", "o"), ("s", "")):
+                if chmax == 255 and dflt == "s" and script == "o" and not T:
+                    continue
+                out.append({"kind": "boundary", "level": level, "chmax": chmax, "flags": 3, "script": script, "dflt": dflt,
+                            "ops": "csdcd" if dflt == "o" else "cdc"})
+        for flags in (0, 1, 2, 4, 255):
+            out.append({"kind": "flags", "level": level, "chmax": 1, "flags": flags, "script": "ooo", "dflt": "s", "ops": "csd"})
+        for dflt, script, ops in (("s", "", "cc"), ("s", "", "cd"), ("o", "", "cd"), ("o", "", "csd"), ("s", "oo", "csd"),
+                                  ("s", "o", "ccd")):
+            out.append({"kind": "slow-read", "level": level, "chmax": 1, "script": script, "dflt": dflt, "ops": ops, "poll": 9.0})
+    return out
+
+
+def all_scenarios(rng, tier):
+    T = tier == "thorough"
+    return noise_scenarios(rng, T) + boundary_scenarios(rng, T) + postconnect_scenarios(rng, T) + fault_point_scenarios(rng, T)
+
+
+def run_scenario(sc):
+    """one termination scenario judged by the property; returns the violation dict or None"""
+    if "blob" in sc and "at" in sc:       # replay files written before the scenario format changed
+        sc = {"kind": sc.get("kind", "residue"), "level": "h" if sc.get("high") else "l", "chmax": sc["chmax"], "dflt": sc["dflt"],
+              "ops": "cd", "read_inject": {str(sc["at"]): [sc["blob"], "pre" if sc.get("prepend") else "post"]}}
+    p = {k: v for k, v in sc.items() if k != "kind"}
+    r = run_session(p)
+    v = judge_session(r, p)
+    if v:
+        v["scenario_params"] = sc
+        v["input"] = {"device": f"{session_defaults(p)['chmax']} channels, flags {session_defaults(p)['flags']}, answers per awaited "
+                                f"request: script '{session_defaults(p)['script']}' then '{session_defaults(p)['dflt']}' "
+                                f"({', '.join(k + '=' + v for k, v in RESP.items())})",
+                      "calls": session_defaults(p)["ops"] + " (c connect, s stream_start, t stream_stop, d disconnect, p pause 0.3 s) on "
+                               + ("NxscopeHandler" if session_defaults(p)["level"] == "h" else "CommHandler"),
+                      "link": {k: session_defaults(p)[k] for k in ("poll", "chunk", "noise", "inject", "read_inject", "stream_every")},
+                      "per_call": [{k: o.get(k) for k in ("op", "res", "t0", "t1", "thr", "intf")} for o in r["ops"]]}
+    return v
 
 
 class C10(Prop):
     id = "C10"
     lean_module = "NxsModel.Props.C10"
-    rule = ("fault scripts on the real CommHandler under the virtual-time runtime: per info request of the handshake the "
-            "reference device answers correctly / stays silent / answers a wrong-kind frame / answers a short frame; "
-            "exhaustive over the fault point and kind for device sizes 1..4 (thorough: ..6), all-silent, silent-from-k, "
-            "rx padding; outcome, virtual elapsed time, request log, thread and interface state after connect and after "
-            "disconnect are compared with the model.  extra_checks: residues of 1..3 header bytes, seeded noise, poison "
-            "headers, at both handler levels, judged by the termination oracle (bounded virtual time, no live thread, "
-            "no spin); distinct = distinct line; non-trivial = script with at least one fault")
+    rule = ("fault scripts on the real CommHandler / NxscopeHandler under the virtual-time runtime. `hs connect`: per info request "
+            "the reference device answers correctly / stays silent / answers a wrong-kind frame / a short frame / garbage / a "
+            "NACK / start-byte-free noise; exhaustive over the fault point and kind for device sizes 0..4 (thorough: ..6), "
+            "chmax 255, all flag values. `hs sess`: op sequences (connect, stream start/stop, pause, disconnect, reconnect on "
+            "the same handler) at both handler levels with the fault from request k on (before / after the connect completed), "
+            "chunked answers; outcome, virtual time, request log, thread count and interface state after every call are "
+            "compared with the model.  extra_checks (termination oracle only): sustained rate-limited noise sources (1 ms..1 s; "
+            "55, 5506, 55ffff07, 00, random), residues at every request index, noise at a read index, reconnects with a stale "
+            "buffer, non-UTF-8 names, zero / 255 channels, a link whose idle read blocks 9 s, really streaming devices; "
+            "distinct = distinct line; non-trivial = script with at least one fault")
     assumptions = ["time is virtual (timeout units); real elapsed time and blocking inside pyserial are outside the model",
-                   "fault classes: finitely many bytes per request (a device streaming forever while ignoring stop is not covered)"]
+                   "fault classes: finitely many bytes per request or noise of bounded rate (a device streaming forever while "
+                   "ignoring stop is not covered by the two draining loops)",
+                   "an ACK frame whose payload has the wrong size raises struct.error out of the ACK wait: outside the fault "
+                   "classes, modelled and compared but not judged"]
 
+    # -- driver lines ---------------------------------------------------------------------------------------------------------
     def cases(self, rng, tier):
         T = tier == "thorough"
-        for chmax in range(1, (7 if T else 5)):
+        for chmax in range(0, (7 if T else 5)):
             nreq = 1 + chmax
-            yield f"hs connect {chmax} 3 0 - o", "clean"
+            fl = (3, 2, 0, 1)[chmax % 4]
+            yield f"hs connect {chmax} {fl} 0 - o", "clean"
             yield f"hs connect {chmax} 3 0 - s", "all-silent"
-            yield f"hs connect {chmax} 3 0 - w", "all-wrong"
+            yield f"hs connect {chmax} {fl} 0 - w", "all-wrong"
             for k in range(nreq + 1):
-                for f in "swh":
-                    yield f"hs connect {chmax} 3 0 {'o' * k + f} o", f"one-fault-{f}"
+                for f in "swhgnx":
+                    yield f"hs connect {chmax} {(3, 0, 2, 1, 255)[(k + chmax) % 5]} 0 {'o' * k + f} o", f"one-fault-{f}"
                     yield f"hs connect {chmax} 3 0 {'o' * k or '-'} {f}", f"from-k-{f}"
-                    yield f"hs connect {chmax} 3 8 {'o' * k + f + f} o", f"two-faults-{f}-pad"
-        for _ in range(300 if T else 60):
-            chmax = rng.randrange(1, 7)
-            script = "".join(rng.choice("ooooswwh" if rng.random() < 0.7 else "oos") for _ in range(rng.randrange(0, 30)))
-            yield f"hs connect {chmax} {rng.randrange(4)} {rng.choice([0, 0, 4, 16])} {script or '-'} {rng.choice('ooosw')}", "random"
+                    if f in "swh" or T:
+                        yield f"hs connect {chmax} 3 8 {'o' * k + f + f} o", f"two-faults-{f}-pad"
+        for _ in range(300 if T else 50):
+            chmax = rng.randrange(0, 7)
+            script = "".join(rng.choice("ooooswwhnx" if rng.random() < 0.7 else "oosg") for _ in range(rng.randrange(0, 30)))
+            yield (f"hs connect {chmax} {rng.choice([0, 1, 2, 3, 3, 255, rng.randrange(256)])} {rng.choice([0, 0, 4, 16])} "
+                   f"{script or '-'} {rng.choice('ooosw')}"), "random"
         yield "hs connect 40 3 0 - o", "big"
         yield "hs connect 40 3 0 ooooooooooss s", "big-silent"
+        yield "hs connect 255 3 0 - o", "max"
+        yield "hs connect 255 2 0 oooooooooooooooooooooooooooooooooooooooo s", "max-silent"
+        # sessions: faults after the connect completed (and before), both levels
+        for level in "lh":
+            opsets = ("cd", "csd", "cstd", "cspd", "cdcd", "csdcsd", "ccd", "cstsd") if level == "h" else \
+                     ("cd", "csd", "cstd", "ctd", "cdcd", "ccd")
+            for chmax in ((0, 1, 2, 3) if T else (0, 2)):
+                nreq = 1 + chmax
+                for f in "sngwx":
+                    for ops in opsets:
+                        for k in (range(0, 5) if T else (0, 2)):
+                            flags = (3, 2, 3, 0, 1)[(k + chmax + len(ops)) % 5] if f in "sn" else 3
+                            yield (f"hs sess {level} {chmax} {flags} 0 {'o' * (nreq + k)} {f} {ops} {(0, 0, 1, 3)[(k + len(ops)) % 4]}",
+                                   f"post-connect-{level}-{f}")
+        # F21: what a session left in the reassembly buffer must not hurt the next one (same handler object)
+        for level, ops in (("l", "ctdcd"), ("l", "csdcd"), ("l", "ctcd"), ("h", "csdcd"), ("h", "cdcd"), ("h", "cstdcsd")):
+            for chmax in ((0, 1, 3) if T else (2,)):
+                for k in range(0, 4 if T else 3):
+                    yield f"hs sess {level} {chmax} 3 0 {'o' * (1 + chmax + k)}g o {ops} {(0, 2)[k & 1]}", "reconnect-after-poison"
+        for _ in range(400 if T else 60):
+            level = rng.choice("lh")
+            chmax = rng.randrange(0, 5)
+            script = "".join(rng.choice("ooooooosnwxg" if rng.random() < 0.8 else "oosh") for _ in range(rng.randrange(0, 16)))
+            ops = "c" + "".join(rng.choice("csstdpd" if level == "h" else "cstdd") for _ in range(rng.randrange(1, 6)))
+            yield (f"hs sess {level} {chmax} {rng.choice([3, 3, 3, 2, 1, 0, 255])} {rng.choice([0, 0, 0, 4])} {script or '-'} "
+                   f"{rng.choice('oooosn')} {ops} {rng.choice([0, 0, 1, 2, 7])}"), "session-random"
 
     def impl(self, line):
         t = line.split(" ")
+        if t[1] == "sess":
+            p = parse_sess(line)
+            if p.get("noise") and not modelled_noise(p):
+                return "bad-op"
+            return fmt_session(run_session(p))
         chmax, flags, rxp = int(t[2]), int(t[3]), int(t[4])
         script = "" if t[5] == "-" else t[5]
         r = run_connect(chmax, flags, rxp, script, t[6])
@@ -133,42 +713,54 @@ class C10(Prop):
 
     def nontrivial(self, line, out):
         t = line.split(" ")
-        return any(c in t[5] + t[6] for c in "swh")
+        sc = t[6] + t[7] if t[1] == "sess" else t[5] + t[6]
+        return any(c in sc for c in "swhgnx")
 
     def oracle(self, line, impl_out=None):
         t = line.split(" ")
+        if t[1] == "sess":
+            p = parse_sess(line)
+            v = judge_session(run_session(p), p)
+            if v:
+                v["scenario_params"] = dict(p, kind="line")
+            return v
         chmax, flags, rxp = int(t[2]), int(t[3]), int(t[4])
         script = "" if t[5] == "-" else t[5]
         r = run_connect(chmax, flags, rxp, script, t[6], time_limit=bound_tenths(chmax) / 10 + 50)
         return judge(r, chmax, f"script={t[5]} default={t[6]}")
 
+    # -- scenarios ----------------------------------------------------------------------------------------------------------------
     def extra_checks(self, rng, tier, ev):
-        T = tier == "thorough"
         viol = []
-        n = 0
-        scen = []
-        # residues: the link delivers 1..3 bytes of a header at some read and then behaves as scripted
-        for chmax in (1, 3):
-            for residue in (b"\x55", b"\x55\x06", b"\x55\x06\x00", b"\x00\x55", b"\x00\x00\x55"):
-                for at_read in (0, 1, 2, 5):
-                    for dflt in ("s", "o"):
-                        for high in (False, True):
-                            scen.append({"kind": "residue", "chmax": chmax, "blob": residue.hex(), "at": at_read,
-                                         "dflt": dflt, "high": high, "prepend": True})
-        # seeded noise and poison headers injected at the first reads
-        for it in range(120 if T else 30):
-            poison = it % 3 == 0
-            blob = (bytes([0x55, rng.randrange(7, 256), rng.randrange(0, 3), rng.randrange(0, 9)]) if poison
-                    else bytes(rng.choice([0x55, 0, 6, 7, rng.randrange(256)]) for _ in range(rng.randrange(1, 40))))
-            scen.append({"kind": "poison" if poison else "noise", "chmax": rng.randrange(1, 5), "blob": blob.hex(),
-                         "at": rng.randrange(0, 12), "dflt": rng.choice("oos"), "high": bool(it & 1), "prepend": False})
+        kinds = {}
+        stuck = 0
+        scen = all_scenarios(rng, tier)
         for sc in scen:
-            n += 1
+            kinds[sc["kind"]] = kinds.get(sc["kind"], 0) + 1
             v = run_scenario(sc)
-            if v and len(viol) < 5:
-                viol.append(v)
-        ev["coverage"]["fault_scenarios"] = n
+            if v:
+                if len(viol) < 6 and not any(w["key"] == v["key"] and w["scenario_params"]["kind"] == sc["kind"] for w in viol):
+                    viol.append(v)
+                if v["key"] == "does-not-terminate":
+                    # every further hang costs real time (a lot when only the real-time watchdog ends it)
+                    stuck += 2 if "RealTimeLimit" in v["what"] else 1
+                    if stuck >= 4:
+                        break
+        ev["coverage"]["fault_scenarios"] = sum(kinds.values())
+        ev["coverage"]["fault_scenario_kinds"] = kinds
+        ev["coverage"]["observations"] = self.observations()
+        # one violation per key goes to the report: keep the simplest scenario of each key first
+        viol.sort(key=lambda v: len(repr(v["scenario_params"])))
         return viol
+
+    def observations(self):
+        """ACK frames of the wrong size (outside the fault classes): recorded, not judged"""
+        out = []
+        for level, ops in (("l", "csd"), ("h", "csd"), ("h", "cd")):
+            p = {"level": level, "chmax": 1, "script": "oo", "dflt": "h", "ops": ops}
+            r = run_session(p)
+            out.append({"session": describe(p), "result": fmt_session(r)})
+        return out
 
     def replay(self, obj):
         if "scenario_params" in obj:
@@ -176,34 +768,8 @@ class C10(Prop):
         return self.oracle(obj["case"])
 
 
-def run_scenario(sc):
-    """one termination scenario (bytes injected into the link at a given read), judged by the property"""
-    blob = bytes.fromhex(sc["blob"])
-
-    def hook(sim, dev, link):
-        orig = link._read
-        state = {"n": 0}
-
-        def rd():
-            state["n"] += 1
-            if state["n"] == sc["at"] + 1:
-                if sc["prepend"]:
-                    dev.rx[0:0] = blob
-                else:
-                    dev.rx += blob
-            return orig()
-        link._read = rd
-        link._fread = rd
-    r = run_connect(sc["chmax"], 3, 0, "", sc["dflt"], high_level=sc["high"], link_hook=hook,
-                    time_limit=bound_tenths(sc["chmax"]) / 10 + 50)
-    v = judge(r, sc["chmax"], f"{sc['kind']}={sc['blob']} at read {sc['at']} default={sc['dflt']} high={sc['high']}")
-    if v:
-        v["scenario_params"] = sc
-    return v
-
-
 def judge(r, chmax, what, must_connect=False):
-    """the property itself: bounded, no thread left, no spin"""
+    """the property itself (single connect + disconnect): bounded, no thread left, no spin"""
     if "exc" in r:
         return {"key": "does-not-terminate", "what": f"connect/disconnect did not terminate in the time budget ({what}): {r['exc']}",
                 "expected": f"return or raise within {bound_tenths(chmax) / 10} s + disconnect", "observed": r["exc"], "scenario": what}
